@@ -8,7 +8,14 @@ import hexlib  # noqa: E402
 
 ID = "C17"
 LEAN_IMPORTS = ["PyTrie.Props.C17"]
-THEOREMS = []
+THEOREMS = [
+    "PyTrie.Props.C17.wrapped_untouched",
+    "PyTrie.Props.C17.read_latest",
+    "PyTrie.Props.C17.contains_latest",
+    "PyTrie.Props.C17.commit_spec",
+    "PyTrie.Props.C17.abort_spec",
+    "PyTrie.Props.C17.commit_failure_spec",
+]
 RULE = ("random pre-existing database contents, then a batch_commit block (do_deletes on/off) containing a random script of "
         "writes, deletes, reads, membership tests and copy() over keys that are pre-existing / new / written then deleted / "
         "deleted then rewritten, leaving the block normally, by an exception after every possible number of operations, or with "
